@@ -245,7 +245,8 @@ class Graph:
                         src.discharged = lock_poison(t)
                         out.append(src)
         for src in out:
-            src.key_fn = attribute(self.facts, parent, src.fn)
+            # the key names the enclosing *function*: code may move between a function, its closures and its async block
+            src.key_fn = re.sub(r'(::\{closure#\d+\})+$', '', attribute(self.facts, parent, src.fn))
         return out, ext_seen
 
     def classify(self, c, t):
